@@ -1637,6 +1637,149 @@ theorem full_only_without_room (c : Cache) (b : List Tok) (h : Inv c) (hfix : c.
         rw [defragCore_freeCount _ _ h1.len] at this
         exact this
 
+/-! ### `CanResume` (repaired, F15b) is sound: an approved position has its whole window present -/
+
+theorem nodup_range_length (n : Nat) (lo : Int) (L : List Int) (hnd : L.Nodup)
+    (hin : ∀ x ∈ L, lo ≤ x ∧ x < lo + n) : L.length ≤ n := by
+  induction n generalizing L with
+  | zero =>
+    cases L with
+    | nil => simp
+    | cons x xs => have := hin x (by simp); omega
+  | succ n ih =>
+    by_cases hm : (lo + (n : Int)) ∈ L
+    · have h1 := ih (L.erase (lo + n)) (hnd.erase _) (by
+        intro x hx
+        have := (hnd.mem_erase_iff).mp hx
+        have h2 := hin x this.2
+        omega)
+      rw [List.length_erase_of_mem hm] at h1
+      omega
+    · have h1 := ih L hnd (by
+        intro x hx
+        have h2 := hin x hx
+        have : x ≠ lo + n := by intro he; subst he; exact hm hx
+        omega)
+      omega
+
+/-- pigeonhole: `n` distinct integers inside an interval of `n` integers fill it -/
+theorem pigeon (n : Nat) (lo : Int) (L : List Int) (hnd : L.Nodup) (hin : ∀ x ∈ L, lo ≤ x ∧ x < lo + n)
+    (hlen : L.length = n) (p : Int) (hp : lo ≤ p ∧ p < lo + n) : p ∈ L := by
+  apply Classical.byContradiction
+  intro hnot
+  have := nodup_range_length n lo (p :: L) (List.nodup_cons.mpr ⟨hnot, hnd⟩) (by
+    intro x hx
+    rcases List.mem_cons.mp hx with rfl | hx
+    · exact hp
+    · exact hin x hx)
+  simp at this
+  omega
+
+/-- the positions the sequence holds -/
+def seqPositions (s : Spec) (seq : Nat) : List Int := (s.filter (fun e => decide (seq ∈ e.seqs))).map (·.pos)
+
+/-- how many of them lie in `[lo, hi)` -/
+def specCount (s : Spec) (seq : Nat) (lo hi : Int) : Nat :=
+  ((seqPositions s seq).filter (fun p => decide (lo ≤ p ∧ p < hi))).length
+
+/-- if a sequence holds no position twice and as many positions in `[lo, hi)` as the interval is long,
+    it holds every position of the interval -/
+theorem window_present (s : Spec) (seq : Nat) (lo hi : Int) (hnd : (seqPositions s seq).Nodup)
+    (hc : (specCount s seq lo hi : Int) = hi - lo) (p : Int) (h1 : lo ≤ p) (h2 : p < hi) :
+    ∃ e ∈ s, seq ∈ e.seqs ∧ e.pos = p := by
+  have hn : hi - lo = ((hi - lo).toNat : Int) := by omega
+  have hmem := pigeon (hi - lo).toNat lo ((seqPositions s seq).filter (fun p => decide (lo ≤ p ∧ p < hi)))
+    (hnd.sublist List.filter_sublist) (by
+      intro x hx
+      have := (List.mem_filter.mp hx).2
+      simp only [decide_eq_true_eq] at this
+      omega) (by unfold specCount at hc; omega) p (by omega)
+  have hp := (List.mem_filter.mp hmem).1
+  unfold seqPositions at hp
+  obtain ⟨e, he, hpe⟩ := List.mem_map.mp hp
+  have := List.mem_filter.mp he
+  exact ⟨e, this.1, by simpa using this.2, hpe⟩
+
+/-- counting over cells (no index, no range) -/
+def cntCells (seq : Nat) (lo hi : Int) (cells : List Cell) : Nat :=
+  (cells.filter (fun x => decide (seq ∈ x.seqs ∧ lo ≤ x.pos ∧ x.pos < hi))).length
+
+theorem countFrom_cnt (seq : Nat) (r : Range) (lo hi : Int) (i : Nat) (cells : List Cell) (acc : Int)
+    (hcov : ∀ k (hk : k < cells.length), seq ∈ cells[k].seqs → r.min ≤ i + k ∧ i + k ≤ r.max) :
+    countFrom seq r lo hi i cells acc = acc + cntCells seq lo hi cells := by
+  induction cells generalizing i acc with
+  | nil => simp [countFrom, cntCells]
+  | cons x xs ih =>
+    have h0 := hcov 0 (by simp)
+    simp only [List.getElem_cons_zero, Nat.add_zero] at h0
+    rw [countFrom, ih (i + 1) _ (by
+      intro k hk hs
+      have := hcov (k + 1) (by simpa using hk) (by simpa using hs)
+      omega)]
+    unfold cntCells
+    by_cases hx : seq ∈ x.seqs ∧ lo ≤ x.pos ∧ x.pos < hi
+    · have hr := h0 hx.1
+      rw [if_pos ⟨hr.1, hr.2, hx⟩, List.filter_cons_of_pos (by simpa using hx)]
+      simp only [List.length_cons]
+      omega
+    · rw [if_neg (by intro hh; exact hx hh.2.2), List.filter_cons_of_neg (by simpa using hx)]
+
+theorem specCount_abs (seq : Nat) (lo hi : Int) (cells : List Cell) (rows : List Row) (hlen : cells.length = rows.length) :
+    specCount ((cells.zip rows).filterMap entryOf) seq lo hi = cntCells seq lo hi cells := by
+  induction cells generalizing rows with
+  | nil => simp [specCount, seqPositions, cntCells]
+  | cons x xs ih =>
+    cases rows with
+    | nil => simp at hlen
+    | cons r rs =>
+      have := ih rs (by simpa using hlen)
+      unfold specCount seqPositions cntCells at this ⊢
+      simp only [List.zip_cons_cons, List.filterMap_cons, entryOf]
+      by_cases h0 : x.seqs = []
+      · simp only [h0, if_true]
+        rw [List.filter_cons_of_neg (by simp [h0])]
+        exact this
+      · simp only [h0, if_false]
+        by_cases hs : seq ∈ x.seqs
+        · rw [List.filter_cons_of_pos (by simpa using hs)]
+          simp only [List.map_cons]
+          by_cases hp : lo ≤ x.pos ∧ x.pos < hi
+          · rw [List.filter_cons_of_pos (by simpa using hp), List.filter_cons_of_pos (by simp [hs, hp])]
+            simp only [List.length_cons]
+            omega
+          · rw [List.filter_cons_of_neg (by simpa using hp), List.filter_cons_of_neg (by simp [hs]; omega)]
+            exact this
+        · rw [List.filter_cons_of_neg (by simpa using hs), List.filter_cons_of_neg (by simp [hs])]
+          exact this
+
+/-- **`CanResume` is sound** (repaired variant `fixResume`, F15b): if a sliding-window cache approves resuming
+    sequence `seq` at `pos`, every position of the window below `pos` — `max 0 (pos − W) ≤ p < pos` — is held
+    by the sequence, so the resumed token will be shown a complete window.  `hnd`: the sequence holds no
+    position twice (true for every history in which positions continue their sequence). -/
+theorem canResume_sound (c : Cache) (seq : Nat) (pos w : Int) (h : Inv c) (hw : c.window = some w)
+    (hfix : c.v.fixResume = true) (hnd : (seqPositions (abs c) seq).Nodup)
+    (hres : canResume c seq pos = true) (p : Int) (h1 : max 0 (pos - w) ≤ p) (h2 : p < pos) :
+    ∃ e ∈ abs c, seq ∈ e.seqs ∧ e.pos = p := by
+  unfold canResume at hres
+  simp only [hw] at hres
+  cases hr : c.ranges seq with
+  | none => simp [hr] at hres
+  | some r =>
+    simp only [hr] at hres
+    split at hres
+    · cases hres
+    · simp only [hfix, Bool.not_true, Bool.false_or, Bool.and_eq_true, decide_eq_true_eq] at hres
+      have hcnt := hres.2
+      rw [countFrom_cnt seq r _ _ 0 c.cells 0 (by
+        intro k hk hs
+        obtain ⟨r', hr', hmin, hmax⟩ := h.cover k hk seq hs
+        rw [hr] at hr'; cases hr'
+        omega)] at hcnt
+      apply window_present (abs c) seq (max 0 (pos - w)) pos hnd _ p h1 h2
+      unfold abs
+      rw [specCount_abs seq _ _ c.cells c.rows h.len]
+      omega
+
 /-! ### Witnesses of the defects the model shares with the code -/
 
 def fwd (c : Cache) (b : List (Tok × Nat)) : Cache :=
@@ -1748,5 +1891,13 @@ example :
     (startReserve (f14pre {}) [⟨0, 0⟩, ⟨0, 1⟩]).curRange = ⟨0, 4⟩ ∧
     (exposedEntries (startReserve (f14pre {}) [⟨0, 0⟩, ⟨0, 1⟩]) ⟨0, 1⟩).length = 2 ∧
     0 < (f14pre {}).cells.length := by decide
+
+/-- non-vacuity of `canResume_sound`: window 2, positions 0..3 stored one by one (position 0 already evicted):
+    resuming at 3 is approved, the sequence holds no position twice; resuming at 5 (beyond what is stored) is refused -/
+example :
+    let c := fwd (fwd (fwd (fwd (Causal.init { fixResume := true } (some 2) 1 16 4 1 1 true)
+      [(⟨0, 0⟩, 1)]) [(⟨0, 1⟩, 2)]) [(⟨0, 2⟩, 3)]) [(⟨0, 3⟩, 4)]
+    c.window = some 2 ∧ canResume c 0 3 = true ∧ (seqPositions (abs c) 0).Nodup ∧ canResume c 0 5 = false ∧
+    (abs c).length = 3 := by decide
 
 end OllamaVerif.C06
